@@ -273,7 +273,7 @@ fn gen_cmd_name(rng: &mut Rng, taken: &mut Vec<String>, base_prefix: Option<&str
             s.push_str(p);
         }
         // now and then a name far longer than its siblings (column widths, padding and length arithmetic in help output)
-        let segs = if rng.chance(4) { rng.range(9, 24) } else { rng.range(1, 3) };
+        let segs = if rng.chance(4) { if rng.chance(25) { rng.range(130, 170) } else { rng.range(9, 24) } } else { rng.range(1, 3) }; // 1 %: more than 255 bytes
         for k in 0..segs {
             if k > 0 && rng.chance(40) {
                 s.push('-');
